@@ -18,6 +18,31 @@ def load_table(extra=False):
     return out
 
 
+def moved_site(world, fn, key, stale, callers):
+    """A reviewed site that a refactoring moved into a private helper of the same module: the helper is not public, every function that
+    calls it had a reviewed site of the same kind and detail which it no longer has, and those reviews carry no machine-checked premise.
+    Returns the stale table keys it stands for (one per caller), or None. The review's reason is about the expression, which moved along;
+    a helper reachable from anywhere else is a new site and needs its own review."""
+    if fn.get("vis") == "Public" or "{closure" in fn["path"]:
+        return None
+    kp = key_path(fn["path"])
+    cs = sorted(c for c in callers.get(kp, ()) if c != kp)
+    if not cs:
+        return None
+    _, kind, detail = key.split("|", 2)
+    detail = detail.split("#")[0]
+    mod = kp.rsplit("::", 1)[0]
+    out = []
+    for c in cs:
+        if not (c.startswith(mod + "::") or c.startswith("<" + mod + "::") or mod in c):
+            return None
+        cand = sorted(k for k in stale if k.split("|")[0] == c and k.split("|")[1] == kind and k.split("|", 2)[2].split("#")[0] == detail)
+        if not cand:
+            return None
+        out.append(cand[0])
+    return out
+
+
 def norm_path(path):
     """Function path with closure ordinals removed: adding or removing an unrelated closure renumbers the others."""
     return re.sub(r"\{closure#\d+\}", "{closure}", path)
@@ -264,6 +289,8 @@ def auto_discharge(world, fn, s, const_only_fns):
         if x[0] == "const" and isinstance(x[1], int) and x[1] <= limit:
             return "GUARD: constant operand fits"
     if kind == "assert:bounds":
+        if ne_len_guard(body, s, strict=True) is True:
+            return "GUARD: dominated by an `index < len` test of the same index and slice, with no write to the index between the test and the site"
         cfg = M.Cfg(body)
         defs = roots(body)
         cond = expr(body, defs, s["cond"])
@@ -304,7 +331,7 @@ def _strip(e):
     return e
 
 
-def ne_len_guard(body, s):
+def ne_len_guard(body, s, strict=False):
     """True if the bounds assertion Lt(idx, len(X)) at site `s` is dominated by a test excluding idx == len(X) (Eq false, Ne true, Lt true,
     Ge false with the same idx expression and the same X) and no block between that test and the site writes through the index's root or
     passes it to a call. Otherwise a short explanation string."""
@@ -339,7 +366,7 @@ def ne_len_guard(body, s):
         true_t = t[3] if false_t else None
         # which edge excludes idx == len ?  Eq:false, Ne:true, Lt:true, Ge:false (Gt/Le say nothing useful)
         edge = {"Eq": false_t[0] if false_t else None, "Ne": true_t, "Lt": true_t, "Ge": false_t[0] if false_t else None}.get(op)
-        if edge is None:
+        if edge is None or (strict and op not in ("Lt", "Ge")):
             continue
         if edge == s["block"] or cfg.dominates(edge, s["block"]):
             found = (d, edge)
@@ -352,6 +379,38 @@ def ne_len_guard(body, s):
     if root[0] != "arg" and root[0] != "local":
         return True
     rl = root[1]
+    if strict:
+        # the test alone must imply the assertion: the index (a possibly re-assigned local, e.g. a loop counter) is not written, borrowed
+        # mutably or handed to a call on any way from the test's edge to the site that does not go through the test again
+        succ = {i: M.successors(b_) for i, b_ in enumerate(body["blocks"])}
+
+        def reach(srcs, nxt):
+            seen, todo = set(), list(srcs)
+            while todo:
+                x = todo.pop()
+                if x in seen or x == d:
+                    continue
+                seen.add(x)
+                todo += nxt(x)
+            return seen
+        pred = {}
+        for a_, bs_ in succ.items():
+            for b_ in bs_:
+                pred.setdefault(b_, []).append(a_)
+        fwd = reach([edge], lambda x: [] if x == s["block"] else succ[x])
+        bwd = reach([s["block"]], lambda x: pred.get(x, []))
+        for b in fwd & bwd:
+            blk = body["blocks"][b]
+            for st in blk["s"]:
+                if st[0] == "=" and M.pl_local(st[1]) == rl:
+                    return "the index is written between the test and the site"
+                if st[0] == "=" and st[2][0] in ("ref", "rawptr") and M.pl_local(st[2][2]) == rl and "mut" in str(st[2][1]).lower():
+                    return "the index is borrowed mutably between the test and the site"
+            t = blk["t"]
+            if t[0] == "call" and b != s["block"]:
+                if isinstance(t[1].get("dest"), int) and t[1]["dest"] == rl:
+                    return "the index is written between the test and the site"
+        return True
     # blocks between the guard edge and the site
     between = [b for b in range(len(body["blocks"])) if (b == edge or cfg.dominates(edge, b)) and cfg.reaches(b, [s["block"]])]
     for b in between:
@@ -532,7 +591,12 @@ def site_rule(ctx, world, crate_names, rule, fn_filter=None, floor=None, report_
     const_only = const_only_functions(world)
     n_auto, n_table, seen_keys = 0, 0, set()
     by_cat = {}
-    for fn, s, key in inventory(world, crate_names, fn_filter):
+    inv = inventory(world, crate_names, fn_filter)
+    all_keys = {k for _, _, k in inv}
+    # reviewed sites whose function no longer has them: candidates for "moved into a private helper" (see moved_site)
+    stale = {k for k in table if k not in all_keys and not table[k].get("requires")}
+    callers = None
+    for fn, s, key in inv:
         seen_keys.add(key)
         r = auto_discharge(world, fn, s, const_only)
         where = f"{fn['span'][0]}:{s['line']}"
@@ -564,6 +628,21 @@ def site_rule(ctx, world, crate_names, rule, fn_filter=None, floor=None, report_
                     continue
             ctx.ok(rule, f"{rule}:{key}", where, f"{e['cat']}: {e['reason']}" + (" [guard re-verified]" if e.get("requires") else ""))
         else:
+            if callers is None:
+                callers = {}
+                for a_, bs_ in call_graph(world).items():
+                    for b_ in bs_:
+                        callers.setdefault(key_path(b_), set()).add(key_path(a_))
+            moved = moved_site(world, fn, key, stale, callers)
+            if moved:
+                n_table += 1
+                for k_ in moved:
+                    stale.discard(k_)
+                e = table[moved[0]]
+                by_cat[e["cat"]] = by_cat.get(e["cat"], 0) + 1
+                ctx.ok(rule, f"{rule}:{key}", where, f"{e['cat']}: reviewed site moved into this private helper, whose only callers are the reviewed function(s) "
+                                                     f"{[k_.split('|')[0][-60:] for k_ in moved]}: {e['reason']}")
+                continue
             ctx.violation(rule, f"{rule}:{key}", where,
                           f"unreviewed {s['kind']} site ({s['detail']}) `{source_line(world.facts and __import__('rsa.facts', fromlist=['REPO']).REPO, fn, s['line'])[:110]}`: "
                           f"not discharged by a dominating guard and not in spec/panic_allow.json")
